@@ -219,8 +219,10 @@ package fri
 //@ def params_ok(p) = params_small(p) && p.Config.CapHeight == 4 && p.DegreeBits + p.Config.RateBits <= 32 && 4 <= p.DegreeBits + p.Config.RateBits && 1 <= p.Config.ProofOfWorkBits && p.Config.ProofOfWorkBits <= 63
 
 //@ func (f *Chip) verifyQueryRound(instance InstanceInfo, challenges *variables.FriChallenges, precomputedReducedEval []gl.QuadraticExtensionVariable, initialMerkleCaps []variables.FriMerkleCap, proof *variables.FriProof, xIndex gl.Variable, n uint64, nLog uint64, roundProof *variables.FriQueryRound)
-//@   props C12 C20 C05
+//@   props C01 C12 C20 C05
 //@   circuit sound-only
+//@   calls fri.Chip.verifyInitialProof fri.Chip.calculateSubgroupX fri.Chip.friCombineInitial fri.Chip.finalPolyEval
+//@   loop 0 calls fri.Chip.computeEvaluation fri.Chip.verifyMerkleProofToCapWithCapIndex
 //@   requires chipok(f.gl) && params_ok(f.friParams) && nLog == f.friParams.DegreeBits + f.friParams.Config.RateBits
 //@   requires canonQE(challenges.FriAlpha) && canonQEs(challenges.FriBetas) && canonQEs(precomputedReducedEval) && canonQEs(proof.FinalPoly.Coeffs)
 //@   requires len(instance.Batches) == 2 && forall(b, 0, len(instance.Batches), canonQE(instance.Batches[b].Point) && len(instance.Batches[b].Polynomials) <= pow2(41))
@@ -240,7 +242,7 @@ package fri
 //@ def fri_inputs_canon(p) = forall(i, 0, len(p.QueryRoundProofs), canonRound(p.QueryRoundProofs[i])) && canonQEs(p.FinalPoly.Coeffs)
 
 //@ func (f *Chip) VerifyFriProof(instance InstanceInfo, openings Openings, friChallenges *variables.FriChallenges, initialMerkleCaps []variables.FriMerkleCap, friProof *variables.FriProof)
-//@   props C14 C12 C20 C05
+//@   props C01 C14 C12 C20 C05
 //@   circuit sound-only
 //@   requires chipok(f.gl) && params_ok(f.friParams) && oracles_small(instance)
 //@   requires canonQE(friChallenges.FriAlpha) && canonQEs(friChallenges.FriBetas) && canonOpeningBatches(openings) && fri_inputs_canon(friProof)
@@ -248,6 +250,8 @@ package fri
 //@   ensures[pow] friChallenges.FriPowResponse.Limb < pow2(64 - f.friParams.Config.ProofOfWorkBits)
 //@   ensures[shape] shape_fri(friProof, instance, f.friParams)
 //@   ensures[rounds] len(friProof.QueryRoundProofs) == f.friParams.Config.NumQueryRounds && len(friChallenges.FriQueryIndices) == len(friProof.QueryRoundProofs)
+//@   calls fri.validateFriProofShape fri.Chip.assertLeadingZeros fri.Chip.fromOpeningsAndAlpha
+//@   loop 0 calls fri.Chip.verifyQueryRound
 //@   loop 0 invariant -1 <= rangeindex && rangeindex < len(friChallenges.FriQueryIndices)
 
 // ------------------------------------------------------------------ FRI instance (plonky2 get_fri_instance): oracles and polynomial lists
